@@ -36,7 +36,12 @@ func (b *BinResult) Crashed() bool {
 func RunBin(dir string, extraEnv []string, timeout time.Duration, stdin string, prog string, args ...string) *BinResult {
 	cmd := exec.Command(prog, args...)
 	cmd.Dir = dir
-	cmd.Env = append(os.Environ(), extraEnv...)
+	for _, kv := range os.Environ() {
+		if !strings.HasPrefix(kv, "TASKCTL_") {
+			cmd.Env = append(cmd.Env, kv)
+		}
+	}
+	cmd.Env = append(cmd.Env, extraEnv...)
 	cmd.SysProcAttr = &syscall.SysProcAttr{Setpgid: true}
 	var so, se bytes.Buffer
 	cmd.Stdout, cmd.Stderr = &so, &se
@@ -73,5 +78,5 @@ func RunBin(dir string, extraEnv []string, timeout time.Duration, stdin string, 
 // CleanEnv returns an environment for child taskctl processes: a private HOME (no global
 // config), no TASKCTL_* variables.
 func CleanEnv(home string) []string {
-	return []string{"HOME=" + home, "TASKCTL_DEBUG=", "TASKCTL_CONFIG_FILE=", "TASKCTL_OUTPUT_FORMAT="}
+	return []string{"HOME=" + home}
 }
